@@ -25,6 +25,10 @@ EXTRA = {
                      "1.0-10", "2.0", "1.0-pre.1+b1", "1.0+b1-pre"],
     "OpensslVersion": ["0.9.8", "0.9.8a", "0.9.8z", "0.9.8za", "0.9.8zh", "1.0.0", "1.0.0-beta1", "1.0.0-beta5", "1.0.1", "1.0.1a", "1.0.2-beta1", "1.0.2", "1.1.0-pre1", "1.1.0-pre6", "1.1.0",
                        "1.1.0a", "1.1.1-pre9", "1.1.1", "1.1.1w", "3.0.0", "3.0.1", "3.1.0", "3.0.0-alpha1", "3.0.0-beta2", "0.9.7-alpha2", "0.9.7-beta1", "0.9.7"],
+    "PypiVersion": ["1.dev0", "1.0.dev456", "1.0a1", "1.0a2.dev456", "1.0a12.dev456", "1.0a12", "1.0b1.dev456", "1.0b2", "1.0b2.post345.dev456", "1.0b2.post345", "1.0rc1.dev456",
+                    "1.0rc1", "1.0", "1.0+abc.5", "1.0+abc.7", "1.0+5", "1.0.post456.dev34", "1.0.post456", "1.0.15", "1.1.dev1", "1", "v1.0", "1.0.ALPHA-1", "1.0a", "1.0a0", "1.0c1",
+                    "1.0-preview.1", "1.0.post1", "1.0-1", "1.0rev1", "1.0.post", "1.0dev", "1!1.0", "2.0", "1.0+ubuntu.1", "1.0+ubuntu-1", "1.0+1", "1.0+a", "01.02", "1.2", "1.0+a.b",
+                    "1.0.0", "1.0post1", "1.0r1", "1.0_beta_2", "1.0-rc-3", "0!1.0", "1.0.post0.dev1", "1.0+001", "1.0+1.a", "1.0+a.1"],
     "SemverVersion": ["1.0.0-alpha", "1.0.0-alpha.1", "1.0.0-alpha.beta", "1.0.0-beta", "1.0.0-beta.2", "1.0.0-beta.11", "1.0.0-rc.1", "1.0.0", "1.0.0+7", "1.0.0+build", "1.0.0-1", "1.0.0-a",
                       "1.0.0-A", "1.0.0-a-b", "1.0.0-0", "2.0.0", "1.10.0", "1.9.0"],
 }
@@ -223,4 +227,4 @@ def run(ctx):
                samples=samples, per_class=per_class, modelled_classes=sorted(modelled), model_impl_differences=len(diffs))
     return core.finish(ctx, proofs, cov, violations, known_seen,
                        assumptions=["theorems (model = reference) exist for deb, rpm, ebuild/alpine, the semver family and legacy openssl; alpm, gem, nuget, conan, maven and the openssl dispatch "
-                                    "are compared with their reference on generated pairs only; pypi delegates to the third-party `packaging` library and has no reference here"])
+                                    "are compared with their reference on generated pairs only; pypi (which delegates to the third-party `packaging` library) is compared with a PEP 440 reference"])
